@@ -331,6 +331,28 @@ def crash_site(status, err):
     return 'status-%d' % status
 
 
+def _minus_paren_groups(full, part):
+    """can `part` be obtained from `full` by deleting balanced parenthesised groups?"""
+    i = j = 0
+    while i < len(full):
+        if j < len(part) and full[i] == part[j]:
+            i += 1
+            j += 1
+        elif full[i] == '(':
+            d = 0
+            while i < len(full):
+                d += full[i] == '('
+                d -= full[i] == ')'
+                i += 1
+                if d == 0:
+                    break
+            else:
+                return False
+        else:
+            return False
+    return j == len(part)
+
+
 def diffsig(exp, got, defined):
     i = 0
     while i < len(exp) and i < len(got) and exp[i] == got[i]:
@@ -349,6 +371,12 @@ def diffsig(exp, got, defined):
             return 'stringification-extra-leading-space'
         if ei.replace(' ', '') == gi.replace(' ', ''):
             return 'stringification-inner-white-space'
+        en, gn = ei.replace(' ', ''), gi.replace(' ', '')
+        if en != gn and _minus_paren_groups(en, gn):
+            # parenthesised groups are missing from the string: the argument lists of invocations inside the argument
+            return 'stringification-loses-argument-list-of-invocation-inside-argument'
+        if gn.startswith(en) or len(gn) > len(en):
+            return 'stringification-has-extra-tokens'
         return 'stringification-spelling'
     if e is None:
         return 'extra-tokens'
@@ -402,6 +430,10 @@ def family(rec):
         return 'crash/' + site      # the wrong output is what a memory error looks like in the plain build
     if 'keyword-body-expanded-twice' in rec['flags']:
         return 'wrong-expansion/second-expansion-of-macro-whose-body-contains-a-keyword'
+    if sig == 'stringification-loses-argument-list-of-invocation-inside-argument':
+        return 'wrong-expansion/' + sig
+    if sig == 'stringification-loses-argument-list-of-invocation-inside-argument':
+        return 'wrong-expansion/' + sig
     if 'funclike-name-ends-replacement-list' in rec['flags']:
         return 'wrong-expansion/funclike-name-ending-a-replacement-list'
     extra = ''
@@ -634,8 +666,36 @@ def m3_redefinitions():
             yield '#define %s\n#define %s\nf\n' % (d1, d2)
 
 
+def m3_stringify_and_plain():
+    """a parameter used both with # and as ordinary tokens, applied to arguments that contain macro names:
+    the string must spell the argument as written, the plain use must be its full expansion"""
+    bodies = ('#a a', 'a #a', '#a , a', '[ a ] #a', '#a #a a', 'a a #a')
+    gdefs = ('#define g x\n', '#define g(b) [b]\n', '#define g f\n', '#define g() y\n')
+    for body in bodies:
+        for gd in gdefs:
+            for n in range(1, 5):
+                for w in itertools.product(('g', 'x', '(', ')', ','), repeat=n):
+                    # balanced, no top-level comma: a single argument
+                    depth, ok = 0, True
+                    for t in w:
+                        if t == '(':
+                            depth += 1
+                        elif t == ')':
+                            depth -= 1
+                            if depth < 0:
+                                ok = False
+                                break
+                        elif t == ',' and depth == 0:
+                            ok = False
+                            break
+                    if not ok or depth != 0:
+                        continue
+                    yield '#define f(a) %s\n%sf(%s)\n' % (body, gd, ' '.join(w))
+
+
 def m3_sources(full):
     out = []
+    out.extend(m3_stringify_and_plain())
     for defs, text in ((EX3_DEFS, EX3_TEXT), (EX4_DEFS, EX4_TEXT), (EX7_DEFS, EX7_TEXT)):
         out.extend(perturbations(defs, text))
     out.extend(EX6)
